@@ -1057,4 +1057,11 @@ def operand_spot(ctx):
     return res
 
 
-RULES = [operand_spot, image_frame, grid_ftheta, pupil_aberration, intensity_used, c03_trace_entry, c03_fields, arg_forward_rule, no_stale, records, arg_names_rule, list_space, record_fresh, operand_attr, parabasal, distortion, radii]
+
+def c16_lost_write(ctx):
+    """shared with C16: the ray energies the analyses read on the image
+    surface are those of the traced rays (image record intensity := rays.i)"""
+    from .C16 import lost_write as _r
+    return _r(ctx)
+
+RULES = [c16_lost_write, operand_spot, image_frame, grid_ftheta, pupil_aberration, intensity_used, c03_trace_entry, c03_fields, arg_forward_rule, no_stale, records, arg_names_rule, list_space, record_fresh, operand_attr, parabasal, distortion, radii]
